@@ -150,7 +150,7 @@ func (c *Ctx) everyIterationChecked(p *Program, rule string, prefixes ...string)
 		var hits []string
 		nf, ne := 0, 0
 		for f := range p.AllFuncs {
-			if f.Blocks == nil || f.Synthetic != "" || !isCirclFunc(f) {
+			if f.Blocks == nil || !sourceFunc(f) || !isCirclFunc(f) {
 				continue
 			}
 			rel := strings.TrimPrefix(funcPkgPath(f), circlPath+"/")
@@ -194,8 +194,15 @@ func init() {
 		registry[prop] = func(c *Ctx) {
 			prev(c)
 			if p := c.Prog("amd64"); p != nil {
+				c.Clauses = append(c.Clauses, prop+".loopcheck: an error or flag returned by a call inside a loop is examined in the iteration that produced it (never merely carried to the next iteration)")
 				c.everyIterationChecked(p, prop+".loopcheck", pres...)
 			}
 		}
 	}
+}
+
+// sourceFunc: a function written in the source: not a wrapper or thunk, but including the instantiations
+// of generic functions (the analysis sees only instantiated bodies).
+func sourceFunc(f *ssa.Function) bool {
+	return f.Synthetic == "" || strings.HasPrefix(f.Synthetic, "instance of")
 }
